@@ -172,7 +172,8 @@ PROPS = {
         "reverse, children first, shuffled, a non-leaf node as the last bytes before the trailing magic} x version 1..4 "
         "(v1 without summary) x 0-3 zoom levels x zoom blocks {per chromosome, packed across chromosome boundaries as "
         "UCSC writes them}. The harness subcommand readq executes CHROMS / INFO / SUMMARY / "
-        "INTERVAL / VALUES / ZOOM / AUTOSQL / ITEMCOUNT on BigWigRead/BigBedRead plain, .cached() and GenericBBIRead; the "
+        "INTERVAL / VALUES / ZOOM / AUTOSQL / ITEMCOUNT on BigWigRead/BigBedRead plain, .cached(), GenericBBIRead, and on "
+        "one .cached() reader kept across all ops of the file (answers must not depend on the query history); the "
         "answers are compared with the encoder's abstract content model (not with a re-decode) and across flavours. "
         "Non-trivial = R-tree depth >= 2 or chromosome tree >= 2 levels or big-endian; tags give the layout cells seen. "
         "Thorough adds the same readq workload on 240 files under valgrind memcheck (the libdeflate FFI is reached with "
@@ -393,7 +394,8 @@ PROPS = {
             dict(cmd="c19x", name="c19-parser-totality-short-strings", cases=170, stall_s=60),
         ] + __import__("c19_tool").legs(tier, seed, scratch),
         rule="Leg 1: for every extra-column count 0..40: bed_autosql(rest) parses and its last declaration has 3+n fields; "
-        "through BigBedWrite (generated / supplied custom schema / default) the header field_count is 3+n / 3+n / 3 and "
+        "through BigBedWrite (generated / supplied custom schema, also with a helper type first, CRLF line ends, tabs / VT / FF "
+        "as separators, snake_case field and table names / default) the header field_count is 3+n / 3+n / 3 and "
         "autosql() returns the text verbatim (default = BED3). Leg 2: grammar-based autoSql generator (simple/object/"
         "table, index/unique/primary/auto, sized and named arrays, enum/set lists, nested declarations, comments with odd "
         "characters, varying whitespace): the schema, EVERY character prefix, every token prefix, and every single-token "
